@@ -15,6 +15,7 @@ import (
 	"fmt"
 	"os"
 	"path/filepath"
+	"regexp"
 	"sort"
 	"strconv"
 	"strings"
@@ -183,7 +184,11 @@ func c16Evaluate(ctx *Ctx, dir string, tf c04Files, targets []string) ([]c04Find
 	stuck := c16Owners(obs.FinalShow.Res.Stdout)
 	seenKey := map[string]bool{}
 	for _, st := range stuck {
-		key := "C16/fixed-point-not-quiet/" + c16FileKind(st.fix.Path) + "/" + st.owner
+		lineText := ""
+		if ls := c16FileLines(final[filepath.Clean(st.fix.Path)]); st.fix.Line1 >= 1 && st.fix.Line1 <= len(ls) {
+			lineText = ls[st.fix.Line1-1]
+		}
+		key := "C16/fixed-point-not-quiet/" + c16FileKind(st.fix.Path) + "/" + st.owner + c16ActionShape(st.fix.Msg, lineText)
 		if seenKey[key] {
 			continue
 		}
@@ -226,6 +231,42 @@ func c16AlignmentAction(msg string) bool {
 		}
 	}
 	return true
+}
+
+// c16LineShape makes the keys of inserting and deleting actions narrow: the fix site is
+// named by what the inserted (or deleted) line starts with -- the text up to the first
+// tab, else its first two words, digits abstracted -- and an assignment whose value
+// contains '#' (which make(1) reads as the start of a comment) is a class of its own.
+func c16LineShape(text string) string {
+	head, value := text, ""
+	if i := strings.IndexByte(text, '\t'); i >= 0 {
+		head, value = text[:i], text[i+1:]
+	} else if f := strings.Fields(text); len(f) > 2 {
+		head = strings.Join(f[:2], " ")
+	}
+	head = regexp.MustCompile(`[0-9]+`).ReplaceAllString(strings.TrimRight(head, "\r"), "N")
+	if len(head) > 24 {
+		head = head[:24]
+	}
+	if strings.Contains(value, "#") {
+		head += " value containing #"
+	}
+	return head
+}
+
+// c16ActionShape: " [shape]" for "Inserting a line …" (the inserted text) and "Deleting this line." (the line)
+func c16ActionShape(msg, lineText string) string {
+	switch {
+	case strings.HasPrefix(msg, "Inserting a line "):
+		if m := reGoQuoted.FindString(msg); m != "" {
+			if u, err := strconv.Unquote(m); err == nil {
+				return " [" + c16LineShape(u) + "]"
+			}
+		}
+	case strings.HasPrefix(msg, "Deleting this line"):
+		return " [" + c16LineShape(lineText) + "]"
+	}
+	return ""
 }
 
 // c16WholeFileAction: actions that are logged for one line but rewrite the file as a whole
@@ -279,7 +320,7 @@ func c16RepeatedFixes(cfg c04Cfg, prevIn, curIn c04Files, prev, cur c16Pass, p i
 		if !strings.Contains(old, "\n"+text+"\n") {
 			continue // the line did not exist (or had another text) when the previous pass ran
 		}
-		key := "C16/same-fix-in-consecutive-passes/" + c16FileKind(file) + "/" + c04FixKind(d.Msg)
+		key := "C16/same-fix-in-consecutive-passes/" + c16FileKind(file) + "/" + c04FixKind(d.Msg) + c16ActionShape(d.Msg, text)
 		if seen[key] {
 			continue
 		}
@@ -393,6 +434,12 @@ func c16WholeRun(ctx *Ctx, res *Result, rng *Rng, ntrees int) {
 		if i%5 != 0 {
 			c16Augment(r.Fork(), tf, g.Pkgs, opts.Density, g.Features)
 		}
+		if i%3 == 1 {
+			c16Terminators(r.Fork(), tf, g.Features)
+		}
+		if i%8 == 3 {
+			c16MetaDirs(r.Fork(), tf, g.Pkgs, g.Features)
+		}
 		fs, obs := c16Evaluate(ctx, dir, tf, nil)
 		res.mu.Lock()
 		res.Evaluations++
@@ -472,6 +519,10 @@ func c16WholeRun(ctx *Ctx, res *Result, rng *Rng, ntrees int) {
 		}
 	})
 	doneKeys := map[string]bool{}
+	// shrinking is sequential and every evaluation is up to 11 runs of the binary: a change that
+	// breaks many fix sites at once (e.g. every inserting fix on CR LF files) must not push the
+	// run over its time limit -- at most 360 shrink evaluations per run, 120 per key
+	shrinkLeft := 360
 	for i := range outcomes {
 		for _, oc := range outcomes[i] {
 			for _, f := range oc.findings {
@@ -489,6 +540,7 @@ func c16WholeRun(ctx *Ctx, res *Result, rng *Rng, ntrees int) {
 							}
 						}
 					}
+					shrinkLeft--
 					fs, _ := c16Evaluate(ctx, dir, t, oc.targets)
 					for _, g := range fs {
 						if g.Key == f.Key {
@@ -498,7 +550,14 @@ func c16WholeRun(ctx *Ctx, res *Result, rng *Rng, ntrees int) {
 					}
 					return false
 				}
-				small := c04ShrinkTree(oc.tree, base, 120, has)
+				budget := 120
+				if shrinkLeft < budget {
+					budget = shrinkLeft
+				}
+				small := oc.tree
+				if budget > 0 {
+					small = c04ShrinkTree(oc.tree, base, budget, has)
+				}
 				has(small)
 				os.RemoveAll(dir)
 				rep := small.ToReplay(base)
